@@ -60,8 +60,20 @@ func vH_C05_conc() {
 	vAssert("init-set-b", cb.SetItem(&Item{Key: keys[0], Val: v0, Priority: 5}) == nil)
 	mb.set(keys[0], v0, 5)
 	vAssert("init-flush", s.Flush() == nil)
-	if vChoose("evict-first", 0, 1) == 1 {
+	nkeys := vParam("nkeys")
+	if vChoose("evict-first", 0, vParam("evict")) == 1 {
 		ca.EvictSomeItems()
+	}
+	if vParam("dirty") == 1 && vChoose("dirty-first", 0, 1) == 1 {
+		// an unflushed mutation before the concurrent phase: the versions the
+		// flusher pins are dirty
+		dv := vBytes("dv", 1)
+		vAssert("dirty-set-a", ca.SetItem(&Item{Key: keys[2], Val: dv, Priority: 7}) == nil)
+		ma.set(keys[2], dv, 7)
+		dv2 := vBytes("dv2", 1)
+		vAssert("dirty-set-b", cb.SetItem(&Item{Key: keys[1], Val: dv2, Priority: 8}) == nil)
+		mb.set(keys[1], dv2, 8)
+		vCover("dirty-first")
 	}
 	x := &vConc{}
 	x.vers = append(x.vers, vVersion{a: ma.clone(), b: mb.clone()})
@@ -77,7 +89,7 @@ func vH_C05_conc() {
 			if onB {
 				c, m = cb, mb
 			}
-			key := keys[vChoose("mut-key", 0, 2)]
+			key := keys[vChoose("mut-key", 0, nkeys-1)]
 			ms := x.tick()
 			if vChoose("mut-op", 0, 1) == 0 {
 				val := vBytes("mv", 1)
@@ -107,7 +119,7 @@ func vH_C05_conc() {
 		flushDone = true
 	}
 	// ---- reader
-	rop := vChoose("read-op", 0, 4)
+	rop := vChoose("read-op", 0, 5)
 	// the reader records what it saw; the comparison with the version log is
 	// made by main after all goroutines have finished (the mutator appends a
 	// version record only after its call returned)
@@ -116,7 +128,7 @@ func vH_C05_conc() {
 		ts := x.tick()
 		switch rop {
 		case 0:
-			key := keys[vChoose("read-key", 0, 2)]
+			key := keys[vChoose("read-key", 0, nkeys-1)]
 			got, err := ca.Get(key)
 			te := x.tick()
 			vAssert("get-noerr", err == nil)
@@ -186,6 +198,24 @@ func vH_C05_conc() {
 					}
 				}
 				vAssert("visit-sees-one-version-never-a-mixture", ok)
+			}
+		case 5:
+			var seen []vSeen
+			err := ca.VisitItemsDescendEx([]byte{0xff, 0xff}, true, func(i *Item, d uint64) bool {
+				seen = append([]vSeen{{i.Key, i.Val, i.Priority, d}}, seen...)
+				vYield("visitor")
+				return true
+			})
+			te := x.tick()
+			vAssert("descend-noerr", err == nil)
+			verdict = func() {
+				ok := false
+				for k := range x.vers {
+					if x.acceptable(k, ts, te) {
+						ok = vOr(ok, vMatchSeq(seen, x.vers[k].a))
+					}
+				}
+				vAssert("descending-visit-sees-one-version-never-a-mixture", ok)
 			}
 		case 4:
 			sn := s.Snapshot()
